@@ -185,6 +185,32 @@ def runFrom (cfg : Cfg) (s : State) (sched : List Nat) : State := sched.foldl (s
 
 def run (cfg : Cfg) (sched : List Nat) : State := runFrom cfg init sched
 
+/-- the one program point between the service's answer and `self.uploadId = uploadId` -/
+def inWindow : PC → Bool
+  | .setId _ => true
+  | _ => false
+
+/-- An exception (KeyboardInterrupt, MemoryError, a storage error, …) ends thread `t` at ANY program point: inside
+the `with` block the lock is released on the way out; nothing else changes. -/
+def crash (s : State) (t : Nat) : State :=
+  (if s.locks (s.mylock t) = some t then s.setHolder (s.mylock t) none else s).goto t .faulted
+
+inductive Ev where
+  | step (t : Nat)
+  | crash (t : Nat)
+  deriving DecidableEq, Repr
+
+def applyEv (cfg : Cfg) (s : State) : Ev → State
+  | .step t => step cfg s t
+  | .crash t => crash s t
+
+def runEv (cfg : Cfg) (s : State) (evs : List Ev) : State := evs.foldl (applyEv cfg) s
+
+def crashesOutsideWindow (cfg : Cfg) : State → List Ev → Bool
+  | _, [] => true
+  | s, .step t :: rest => crashesOutsideWindow cfg (step cfg s t) rest
+  | s, .crash t :: rest => !inWindow (s.pc t) && crashesOutsideWindow cfg (crash s t) rest
+
 /-- thread `t` can make progress (its `step` is not a stutter) -/
 def enabled (s : State) (t : Nat) : Bool :=
   match s.pc t with
